@@ -7,6 +7,7 @@ consistency are decided by the Lean functions of Model/OpenAPI.lean (drv_oas) wh
 proved in Props/C07.lean; parameters, bodies, response codes and security are compared with what
 the design maps."""
 import json
+import sys
 import os
 import re
 import shutil
@@ -115,6 +116,10 @@ def run(c):
                      "server built with the glue and its Mount functions run against a recording muxer; the four documents loaded and validated by "
                      "kin-openapi (v2 also through its conversion to v3). non-trivial = operations compared.") % (n - 1)
     c.cov["trusted_base"] += [
+        "gofacts statusconst (T2): the map literal statusCodeToConst, the printed body of statusCodeToHTTPConst and the StatusCode sites of http/codegen, "
+        "and the Status* constants of the net/http the generated code is compiled against (go/types); Model/StatusConst.lean `emit`/`eval` are hand-written "
+        "(the function is two statements; its printed body is compared with the reviewed text by `function_is_the_modelled_lookup`); that the templates "
+        "write `.StatusCode` where the status goes is by execution (status designs)",
         "github.com/getkin/kin-openapi v0.128.0 (module cache): openapi3 loader + Validate (run with and without example validation), openapi2 + openapi2conv; "
         "the extra OpenAPI 2.0 rules checked by harness/cmd/rtopenapi (path parameters required and present in the template, one body parameter, "
         "unique operationId, non-empty responses); gopkg.in/yaml.v3 for the YAML renderings",
@@ -123,6 +128,12 @@ def run(c):
     ]
     have = c.go_build("genrun", "rtopenapi")
     lean_ok = False
+    # the status a response is written with: the table of /repo and the constants of net/http, regenerated (T2); when the theorem no longer
+    # checks, the status designs below are the search for the status code the server now gets wrong
+    if c.go_build("gofacts") and c.gofacts("statusconst", "FactsStatus") and c.lake_build("GoaVerif.Props.Status"):
+        c.audit("Status")
+        if c.tier == "thorough":
+            c.leanchecker("Status")
     if c.lake_build("GoaVerif.Props.C07"):
         c.audit("C07")
         if c.tier == "thorough":
@@ -135,6 +146,10 @@ def run(c):
     builds = e2e.build_many(c.seed, range(n), lambda i: FLAGS[i % 5], work)
     na = 8 if c.tier == "quick" else 16
     builds += e2e.build_many(c.seed, range(na), lambda i: ["-any-design"], work)
+    ns = 1 if c.tier == "quick" else 3
+    builds += e2e.build_many(c.seed, range(ns), lambda i: ["-status-design"], work)
+    c.cov["rule"] += (" Plus %d status designs: a response for every final status code net/http names and some it does not; the generated server is called "
+                      "once per response and the status it writes compared with the design and with the codes the documents list." % ns)
     c.cov["rule"] += (" Plus %d designs around the type Any (whole payload/result, array element, map value, attribute, query parameter, response "
                       "header; the odd ones with example generation switched off)." % na)
     total = 0
@@ -172,9 +187,15 @@ def run(c):
 
         for ver, key in ((2, "v2"), (3, "v3")):
             d = rep[key]
+            if not rep["%s_json_yaml_equal" % key]:
+                # every leaf difference is classified on its own: a known one does not hide another
+                for dd in rep.get(key + "_diffs") or [rep.get(key + "_diff")]:
+                    fail("openapi%d/json-yaml-differ/%s" % (ver, classify_yaml_diff(dd)), "%s differs from its YAML rendering at %s" % ({"v2": "openapi.json", "v3": "openapi3.json"}[key], json.dumps(dd)[:500]))
             if d.get("load_error"):
                 fail("openapi%d/does-not-load/%s" % (ver, classify_invalid(d["load_error"])), "the document does not load: " + d["load_error"][:300])
-                continue
+                c.hist("document that does not load", "examined after rewriting the exclusive bounds" if d.get("recovered") else "not examined further")
+                if not d.get("recovered"):
+                    continue
             if d.get("validate_error") and "failed to resolve" in d["validate_error"] and "conversion to v3" in d["validate_error"]:
                 c.hist("validator-limitation", "openapi2conv cannot convert a $ref below additionalProperties")  # not a verdict about the document
             elif d.get("validate_error"):
@@ -183,8 +204,6 @@ def run(c):
                 fail("openapi%d/%s" % (ver, classify_invalid(d["example_error"])), "an example in the document violates its own schema: " + d["example_error"][:400])
             for note in d.get("notes") or []:
                 fail("openapi%d/note" % ver, note)
-            if not rep["%s_json_yaml_equal" % key]:
-                fail("openapi%d/json-yaml-differ/%s" % (ver, classify_yaml_diff(rep, key)), "%s differs from its YAML rendering at %s" % ({"v2": "openapi.json", "v3": "openapi3.json"}[key], json.dumps(rep.get(key + "_diff"))[:500]))
             # operations: Lean decides
             ops = d.get("ops") or []
             for o in ops:
@@ -266,11 +285,47 @@ def run(c):
                          "%s: declared NoSecurity but the operation has no `security: []` and inherits the document's %s" % (name, got_sec))
                 elif got_sec != want_sec:
                     fail("openapi%d/security" % ver, "%s: documented security %s, effective requirements %s" % (name, got_sec, want_sec))
+        if "-status-design" in (getattr(b, "flags", None) or []):
+            status_calls(c, b, rep, fail)
         if len(c.cov["samples"]) < 2:
             c.sample({"design_index": b.index, "mounted": routes[:4], "v3_ops": [(o["method"], o["path"], o["responses"]) for o in (rep["v3"].get("ops") or [])[:4]]})
         b.cleanup()
     shutil.rmtree(work, ignore_errors=True)
     c.cov["ties"].setdefault("T5", []).append({"name": "generated documents (via kin-openapi) vs generated Mount (recording muxer) vs design", "operations": total})
+
+
+def status_calls(c, b, rep, fail):
+    """the status design: one call per designed response; the status the server writes is the designed one and both documents list it"""
+    cmds, want = [], []
+    for s in b.design["services"]:
+        for m in s["methods"]:
+            h = m["http"]
+            for r in h.get("responses") or []:
+                cmds.append({"op": "call", "service": s["name"], "method": m["name"], "script": {}})
+                want.append((s, m, r["code"]))
+            for e in h.get("errors") or []:
+                cmds.append({"op": "call", "service": s["name"], "method": m["name"], "script": {"error": {"kind": "declared", "name": e["name"], "message": "x"}}})
+                want.append((s, m, e["code"]))
+    obs, err = b.run(cmds)
+    if obs is None or len(obs) != len(cmds):
+        c.broken.append({"kind": "tie", "name": "e2e binary failed for status design %d" % b.index, "detail": str(err)[-800:]})
+        return
+    docs = {}
+    for key in ("v2", "v3"):
+        for o in rep[key].get("ops") or []:
+            docs[(key, o["method"], o["path"])] = set(o.get("responses") or [])
+    for (s, m, code), o in zip(want, obs):
+        got = (o.get("wire") or {}).get("status")
+        c.evaluations += 1
+        c.hist("status written", "%dxx" % (code // 100))
+        c.count("status/%d/%d" % (b.index, code))
+        if got != code:
+            fail("server/status-differs-from-design/%d" % code, "%s.%s: the design assigns status %d, the generated server writes %s" % (s["name"], m["name"], code, got),
+                 expected=str(code), actual=str(got))
+        for key in ("v2", "v3"):
+            listed = docs.get((key, m["http"]["verb"], m["http"]["path"]))
+            if listed is not None and str(got) not in listed:
+                fail("openapi%s/status-written-not-documented/%s" % (key[1], got), "%s.%s: the server answers %s, the document lists %s" % (s["name"], m["name"], got, sorted(listed)))
 
 
 def classify_invalid(msg):
@@ -302,9 +357,9 @@ def classify_invalid(msg):
     return "other: " + (inner[0] if inner else msg[:80])
 
 
-def classify_yaml_diff(rep, key):
-    """kind of difference between a JSON document and its YAML rendering"""
-    d = rep.get(key + "_diff") or {}
+def classify_yaml_diff(d):
+    """kind of one difference between a JSON document and its YAML rendering"""
+    d = d or {}
     if d.get("json_type") == "string" and d.get("yaml_type", "").startswith("[]interface"):
         return "bytes-example-is-base64-in-json-and-integer-list-in-yaml"
     if d.get("json_type") == "string" and d.get("yaml_type") == "string" and d.get("json", "").strip()[:300] == d.get("yaml", "").strip()[:300]:
